@@ -239,12 +239,18 @@ def flac(d):
     foreign = [("id3-prefix", id3 or b"")]
     seen_vc = False
     padding = 0
+    more_vc = []
     for t, pl in blocks:
         if t == 4 and not seen_vc:
             seen_vc = True
             vendor, items, used = vc_decode(pl)
             need(used == len(pl), "flac: slack after vorbis comment")
             tags = dict(vendor=vendor, items=items)
+        elif t == 4:
+            # further comment blocks (tolerated by readers) are tag data too, not foreign data
+            vendor2, items2, used2 = vc_decode(pl)
+            need(used2 == len(pl), "flac: slack after vorbis comment")
+            more_vc.append(pl)
         elif t == 1:
             padding += len(pl)
             need(not pl.strip(b"\x00"), "flac: non-zero padding block")
@@ -254,7 +260,7 @@ def flac(d):
             foreign.append(("block%d" % t, pl))
     foreign.append(("audio", audio))
     npad = sum(1 for t, _ in blocks if t == 1)
-    return dict(foreign=foreign, tags=tags, padding=padding, extra=dict(blocks=[t for t, _ in blocks], npad=npad,
+    return dict(foreign=foreign, tags=tags, padding=padding, extra=dict(blocks=[t for t, _ in blocks], npad=npad, more_vc=more_vc,
                                                                          tag_region=(off + 4, p)))
 
 
